@@ -29,7 +29,7 @@ BOUNDS = {
              'sets, Date, Message-Id, Received, pass-through test policy, two '
              'generator-style test policies) '
              'over 5 recipient lists from a menu, Date/Message-Id present or '
-             'absent, header-less message',
+             'absent or present with an empty value, header-less message',
     'thorough': 'symbolic recipients of 4 characters; chains of 3 policies',
 }
 OUTSIDE = 'copy.deepcopy / email.message internals (run natively)'
@@ -163,7 +163,13 @@ def run_sym(cell):
     queue = Queue(store, None)
     for p in cell['chain']:
         queue.add_policy(make_policy(p))
-    queue.enqueue(env)
+    try:
+        queue.enqueue(env)
+    except api.Unsupported:
+        raise
+    except Exception as e:
+        api.fail('enqueue-raised', exc=type(e).__name__, msg=str(e)[:120])
+        return
     out = store.written
     info = dict(chain=cell['chain'], n_out=len(out))
     allr = [r for e in out for r in e.recipients]
@@ -222,12 +228,15 @@ def run_chain(cell):
             break
         chain.append(POLICIES[c])
     rc = MENU[api.choice('rcpts', len(MENU))]
-    hdr = api.choice('headers', 4)
+    hdr = api.choice('headers', 5)
     data = [b'Subject: x\r\n',
             b'Date: Mon, 1 Jan 2001 00:00:00 +0000\r\nSubject: x\r\n',
             b'Message-Id: <orig@client>\r\nDATE: Mon, 1 Jan 2001 00:00:00 '
             b'+0000\r\n',
-            b''][hdr] + b'\r\nbody \xff\r\n.\r\n'
+            b'',
+            # present, with an empty value
+            b'Date:\r\nMessage-Id: \r\nSubject: x\r\n'][hdr] + \
+        b'\r\nbody \xff\r\n.\r\n'
     env = Envelope('s@z', list(rc))
     env.parse(data)
     env.timestamp = 1234567890.0
@@ -240,7 +249,13 @@ def run_chain(cell):
     queue = Queue(store, None)
     for p in chain:
         queue.add_policy(make_policy(p))
-    queue.enqueue(env)
+    try:
+        queue.enqueue(env)
+    except api.Unsupported:
+        raise
+    except Exception as e:
+        api.fail('enqueue-raised', exc=type(e).__name__, msg=str(e)[:120])
+        return
     out = store.written
     info = dict(chain=chain, rcpts=rc, headers=hdr, n_out=len(out))
     # expected recipients: forwarding rules applied in chain order
@@ -253,8 +268,8 @@ def run_chain(cell):
     api.prove(sorted(got) == sorted(want), 'recipients-not-conserved',
               got=sorted(got), want=sorted(want), **info)
     check_common(out, env, info, 's@z', body)
-    had_date = hdr in (1, 2)
-    had_mid = hdr == 2
+    had_date = hdr in (1, 2, 4)
+    had_mid = hdr in (2, 4)
     for e in out:
         names = [k.lower() for k in e.headers.keys()]
         if 'date' in chain:
